@@ -1,4 +1,6 @@
 \* used with -simulate: random sessions of WalkLen messages
+\* (buffer sizes above 125: with a smaller one the oversize control writes of "over" leave 125 buffered octets, which this
+\* version of the library sends as a ping of its own with the next message - valid frames, no message touched: not C13)
 SPECIFICATION WalkSpec
 CONSTANTS
   Families = {}
@@ -6,8 +8,10 @@ CONSTANTS
   CompCfgs <- QuickComp
   XBufSizes = {}
   XCompCfgs <- QuickComp
-  MultiBufSizes = {256, 512, 4096}
+  MultiBufSizes = {127, 256, 512, 4096}
   MultiCompCfgs <- ThoroughBig
+  ResidBufSizes = {}
+  ResidCompCfgs <- ResidComp
   BigSizes = {}
   RandSizes = {}
   RandCalls = {}
